@@ -316,7 +316,11 @@ func (f *focusHandler) childHasFocus(s Surface) bool {
 		if !f.childHasFocus(c.Surface) {
 			continue
 		}
-		f.path = append(f.path, s.Widget)
+		// A widget which wraps its surface in another surface of its
+		// own is one node of the path
+		if n := len(f.path); n == 0 || f.path[n-1] != s.Widget {
+			f.path = append(f.path, s.Widget)
+		}
 		return true
 	}
 
@@ -752,7 +756,14 @@ func hitTest(s Surface, hits []hitResult, col uint16, row uint16) []hitResult {
 		row: row,
 		w:   s.Widget,
 	}
-	hits = append(hits, r)
+	if n := len(hits); n > 0 && hits[n-1].w == s.Widget {
+		// A widget which wraps its surface in another surface of its
+		// own (a list item next to the cursor gutter) is one widget
+		// under the pointer, not two
+		hits[n-1] = r
+	} else {
+		hits = append(hits, r)
+	}
 	for _, ss := range s.Children {
 		if !ss.containsPoint(int(col), int(row)) {
 			continue
